@@ -79,8 +79,8 @@ class H:
     def __init__(self, name, src, entry, link=(), variants=None, defines=None, unwind=None, unwindset=None,
                  cbmc=(), tier='quick', timeout=300, route='B', functions=(), stubs=(), assumptions=(),
                  bounds='', checks=(), opt='-O1', backends=('default',), diff_runs=40, override=(),
-                 objbits=None, keep=(), tvariants=None, memunwind=72, noop=(), nofmt=False, shadow=(), allow_nobody=(), fsarray=256, csrc=(), slice_formula=True, include_dirs=(), global_ctors=False, ubsan=True, witness_backends=()):
-        self.witness_backends = list(witness_backends); self.global_ctors = global_ctors; self.ubsan = ubsan; self.memunwind = memunwind; self.noop = list(noop); self.nofmt = (list(shadow) + (['nofmt'] if nofmt and 'nofmt' not in shadow else [])) or False; self.allow_nobody = list(allow_nobody); self.fsarray = fsarray
+                 objbits=None, keep=(), tvariants=None, memunwind=72, noop=(), nofmt=False, shadow=(), allow_nobody=(), fsarray=256, entries=None, tentries=None, csrc=(), slice_formula=True, include_dirs=(), global_ctors=False, ubsan=True, witness_backends=()):
+        self.witness_backends = list(witness_backends); self.global_ctors = global_ctors; self.ubsan = ubsan; self.memunwind = memunwind; self.noop = list(noop); self.nofmt = (list(shadow) + (['nofmt'] if nofmt and 'nofmt' not in shadow else [])) or False; self.allow_nobody = list(allow_nobody); self.fsarray = fsarray; self.entries = entries; self.tentries = tentries   # entries: [(name, 'template,args'), ...] -> one shared build, one solver query per entry
         self.name = name; self.src = src; self.entry = entry; self.link = list(link)
         self.variants = variants or [{}]; self.tvariants = tvariants  # thorough-tier variants (default: same)
         self.defines = defines or {}
@@ -186,17 +186,29 @@ BACKENDS = {
     'kissat': ['--external-sat-solver', 'kissat'],
     'z3': ['--z3'],
     'cvc5int': ['--cvc5'],   # through PATH shim adding --solve-bv-as-int=sum
+    'cvc5int-di': ['--cvc5'],   # same + --decision=internal (the two decision heuristics fail on different non-linear queries)
+    'cvc5int-bw': ['--cvc5'],   # --solve-bv-as-int=bitwise
     'cvc5': ['--cvc5'],
+    'kissat-sweep': ['--external-sat-solver', 'kissat-sweep'],   # through PATH shim: kissat --sweepcomplete=true (SAT sweeping to completion: proves internal equivalences of miters bottom-up)
 }
+
+
+CVC5_SHIM_OPTS = {'cvc5int': '--solve-bv-as-int=sum', 'cvc5int-di': '--solve-bv-as-int=sum --decision=internal', 'cvc5int-bw': '--solve-bv-as-int=bitwise'}
 
 
 def backend_env(b, work):
     env = dict(os.environ)
-    if b == 'cvc5int':
-        d = os.path.join(work, 'shim-cvc5int'); os.makedirs(d, exist_ok=True)
+    if b in CVC5_SHIM_OPTS:
+        d = os.path.join(work, 'shim-' + b); os.makedirs(d, exist_ok=True)
         p = os.path.join(d, 'cvc5')
         if not os.path.exists(p):
-            open(p, 'w').write('#!/bin/sh\nexec /usr/bin/cvc5 --solve-bv-as-int=sum "$@"\n'); os.chmod(p, 0o755)
+            open(p + '.tmp', 'w').write('#!/bin/sh\nexec /usr/bin/cvc5 %s "$@"\n' % CVC5_SHIM_OPTS[b]); os.chmod(p + '.tmp', 0o755); os.replace(p + '.tmp', p)
+        env['PATH'] = d + ':' + env['PATH']
+    if b == 'kissat-sweep':
+        d = os.path.join(work, 'shim-' + b); os.makedirs(d, exist_ok=True)
+        p = os.path.join(d, 'kissat-sweep')
+        if not os.path.exists(p):
+            open(p + '.tmp', 'w').write('#!/bin/sh\nexec kissat --sweepcomplete=true "$@"\n'); os.chmod(p + '.tmp', 0o755); os.replace(p + '.tmp', p)
         env['PATH'] = d + ':' + env['PATH']
     return env
 
@@ -277,19 +289,75 @@ def tape_from_trace(out):
     return [vals.get(i, 0) for i in range(min(n, TAPE_MAX))]
 
 
+class SharedBuild:
+    """One build (clang IR -> ll2c -> goto binary + native binaries) shared by all entries of a multi-entry harness."""
+    def __init__(self, pid, hdir, h, entries, tier, root):
+        self.pid = pid; self.hdir = hdir; self.h = h; self.entries = entries; self.root = root
+        self.lock = threading.Lock(); self.done = False; self.err = None
+        self.work = os.path.join(root, h.name + '-shared')
+        self.job = None; self.gb = None; self.gb_rec = None; self.bins = None; self.build_s = 0
+
+    def ensure(self):
+        with self.lock:
+            if self.done:
+                if self.err: raise Inconclusive(self.err)
+                return
+            t0 = time.time()
+            try:
+                os.makedirs(self.work, exist_ok=True)
+                inc = os.path.join(self.work, 'verif_entries.inc')
+                with open(inc, 'w') as f:
+                    for name, args in self.entries:
+                        f.write('VERIF_ENTRY(%s, %s)\n' % (name, args))
+                j = Job(self.pid, self.hdir, self.h, {}, 'quick', self.root); j.work = self.work
+                j.extra_defs = {'VERIF_ENTRIES_INC': '"%s"' % inc, 'VERIF_MULTI': '1'}
+                j.entry_list = ['h_' + n for n, _ in self.entries]
+                j.build_B()
+                self.job = j
+                self.gb = self.goto_cc(j, 'prog.gb', [])
+                j.build_native()
+                self.bins = j.bins
+            except Inconclusive as e:
+                self.err = 'shared build failed: ' + str(e)
+            except Exception:
+                import traceback
+                self.err = 'shared build failed (driver exception): ' + traceback.format_exc()[-3000:]
+            self.done = True; self.build_s = round(time.time() - t0, 2)
+            if self.err: raise Inconclusive(self.err)
+
+    def goto_cc(self, j, out, extra):
+        o0 = os.path.join(self.work, 'nolib_' + out); o = os.path.join(self.work, out)
+        rc, outp, _, _ = run(['goto-cc', '-o', o0] + j.cfiles + j.cdefs() + list(extra), timeout=900)
+        if rc != 0:
+            raise Inconclusive('goto-cc failed:\n' + outp[-3000:])
+        # link CBMC's C library models once here: cbmc would otherwise redo it for every entry (minutes on a large program)
+        rc, outp, _, _ = run(['goto-instrument', '--add-library', o0, o], timeout=1800)
+        if rc != 0 or not os.path.exists(o):
+            raise Inconclusive('goto-instrument --add-library failed:\n' + outp[-3000:])
+        return o
+
+    def recording_binary(self):
+        with self.lock:
+            if self.gb_rec is None:
+                self.gb_rec = self.goto_cc(self.job, 'prog_rec.gb', ['-D', 'VERIF_RECORD_TAPE', '-D', 'VERIF_TAPE_MAX=%d' % TAPE_MAX])
+            return self.gb_rec
+
+
 class Job:
-    def __init__(self, pid, hdir, h, variant, tier, root):
+    def __init__(self, pid, hdir, h, variant, tier, root, shared=None, entry_name=None):
         self.pid = pid; self.hdir = hdir; self.h = h; self.variant = variant; self.tier = tier
+        self.shared = shared; self.entry_name = entry_name; self.extra_defs = {}; self.entry_list = None
         vtag = '_'.join('%s%s' % (k, v) for k, v in sorted(variant.items()))
-        self.id = h.name + (('-' + re.sub(r'[^A-Za-z0-9_.-]', '_', vtag)) if vtag else '')
+        self.id = h.name + (('-' + re.sub(r'[^A-Za-z0-9_.-]', '_', vtag)) if vtag else '') + (('-' + entry_name) if entry_name else '')
         self.work = os.path.join(root, self.id)
         self.res = dict(harness=h.name, variant=variant, id=self.id)
+        if entry_name: self.res['entry'] = entry_name
 
     # ------------------------------------------------------------------ build
     def build_B(self):
         h = self.h; w = self.work
         os.makedirs(w, exist_ok=True)
-        defs = dict(h.defines); defs.update(self.variant)
+        defs = dict(h.defines); defs.update(self.variant); defs.update(self.extra_defs)
         src = resolve_src(h.src, self.hdir)
         lls = [compile_ir(src, defs, w, h.opt, overlay_rules=False, ubsan=h.ubsan, nofmt=h.nofmt)]
         for l in h.link:
@@ -298,7 +366,7 @@ class Job:
         ovs = [compile_ir(resolve_src(o, self.hdir), defs, w, h.opt, overlay_rules=False, ubsan=h.ubsan, nofmt=h.nofmt) for o in h.override]
         linked = os.path.join(w, 'linked.bc')
         red = os.path.join(w, 'red.bc'); redll = os.path.join(w, 'red.ll')
-        rkey = sha('|'.join(lls) + '#' + '|'.join(ovs) + '#' + h.entry + ','.join(h.keep) + str(h.global_ctors) + '|'.join(h.noop) + 'r2')
+        rkey = sha('|'.join(lls) + '#' + '|'.join(ovs) + '#' + ','.join(self.entry_list or [h.entry]) + ','.join(h.keep) + str(h.global_ctors) + '|'.join(h.noop) + 'r2')
         rcache = os.path.join(CACHE, 'red-' + rkey + '.bc')
         if os.path.exists(rcache):
             shutil.copy(rcache, red)
@@ -310,7 +378,7 @@ class Job:
         rc, out, _, _ = run(cmd, timeout=300)
         if rc != 0:
             raise Inconclusive('llvm-link failed:\n' + out[-3000:])
-        api = ','.join([h.entry] + h.keep)
+        api = ','.join((self.entry_list or [h.entry]) + h.keep)
         # textual IR edits (all three builds of the harness see the same edited module):
         #  - dynamic initialisers of unrelated globals are not executed by CBMC (it starts at the entry function); drop them
         #    unless the harness asks for them. Harnesses initialise what they need explicitly.
@@ -356,7 +424,18 @@ class Job:
         self.res['externals'] = [e[1:] for e in ext]
         self.res['functions_defined'] = len(re.findall(r'^define ', open(redll).read(), re.M))
         wrap = os.path.join(w, 'wrap.c')
-        open(wrap, 'w').write('extern int verif_exc_pending; void %s(void);\nvoid verif_main(void) { %s(); __CPROVER_assert(!verif_exc_pending, "uncaught exception escaped harness"); }\n' % (h.entry, h.entry))
+        if self.entry_list:
+            ws = 'extern int verif_exc_pending;\n'
+            for e in self.entry_list:
+                ws += 'void %s(void);\nvoid verif_main_%s(void) { %s(); __CPROVER_assert(!verif_exc_pending, "uncaught exception escaped harness"); }\n' % (e, e[2:], e)
+            open(wrap, 'w').write(ws)
+            disp = os.path.join(w, 'dispatch.c')
+            open(disp, 'w').write(''.join('void %s(void);\n' % e for e in self.entry_list) + 'struct verif_entry { const char* name; void (*fn)(void); };\nstruct verif_entry verif_entries[] = {' +
+                                  ''.join('{"%s", %s},' % (e[2:], e) for e in self.entry_list) + '{0, 0}};\n')
+            self.dispatch = disp
+        else:
+            open(wrap, 'w').write('extern int verif_exc_pending; void %s(void);\nvoid verif_main(void) { %s(); __CPROVER_assert(!verif_exc_pending, "uncaught exception escaped harness"); }\n' % (h.entry, h.entry))
+            self.dispatch = None
         self.cfiles = [cfile, wrap, os.path.join(TOOL, 'rt.c'), os.path.join(TOOL, 'rt_io.c')] + [resolve_src(c, self.hdir) for c in h.csrc]
         self.red = red
         self.entry = 'verif_main'
@@ -370,6 +449,7 @@ class Job:
 
     def cdefs(self):
         defs = dict(self.h.defines); defs.update(self.variant)
+        if self.entry_list: defs['VERIF_MULTI'] = '1'
         out = []
         for k, v in sorted(defs.items()):
             out += ['-D', '%s=%s' % (k, v) if v is not None else k]
@@ -386,12 +466,13 @@ class Job:
         bins = {}
         if h.route == 'B':
             gc = os.path.join(w, 'native_c')
-            rc, out, _, _ = run(['gcc', '-O1', '-w', '-fno-strict-aliasing', '-fwrapv', '-DVERIF_ENTRY=' + h.entry] + [c for c in self.cfiles if not c.endswith('wrap.c')] + ['-o', gc], timeout=600)
+            ent = (['-DVERIF_MULTI'] if self.entry_list else ['-DVERIF_ENTRY=' + h.entry])
+            rc, out, _, _ = run(['gcc', '-O1', '-w', '-fno-strict-aliasing', '-fwrapv'] + ent + [c for c in self.cfiles if not c.endswith('wrap.c')] + ([self.dispatch] if self.entry_list else []) + ['-o', gc], timeout=600)
             if rc != 0:
                 raise Inconclusive('gcc build of generated C failed:\n' + out[-3000:])
             bins['c'] = gc
             nb = os.path.join(w, 'native_bc')
-            rc, out, _, _ = run(['clang++-14', '-O1', '-w', self.red, '-x', 'c', os.path.join(TOOL, 'rt_io.c'), '-DVERIF_BC_BUILD', '-DVERIF_ENTRY=' + h.entry, '-o', nb, '-lstdc++', '-lm'], timeout=600)
+            rc, out, _, _ = run(['clang++-14', '-O1', '-w', self.red, '-x', 'c', os.path.join(TOOL, 'rt_io.c')] + ([self.dispatch] if self.entry_list else []) + ['-DVERIF_BC_BUILD'] + ent + ['-o', nb, '-lstdc++', '-lm'], timeout=600)
             if rc != 0:
                 raise Inconclusive('native build of reduced bitcode failed (unresolved real symbols must be stubbed in the harness):\n' + out[-3000:])
             bins['bc'] = nb
@@ -409,7 +490,8 @@ class Job:
             return dict(runs=0, passed_assumes=0)
         n = 0; live = 0
         seeds = [str(seed * 1000003 + i) for i in range(self.h.diff_runs)]
-        script = 'for s in %s; do a=$(timeout 60 "%s" --seed $s 2>&1); ra=$?; b=$(timeout 60 "%s" --seed $s 2>&1); rb=$?; printf "%%s\\037%%s\\037%%s\\037%%s\\037%%s\\036" "$s" "$ra" "$a" "$rb" "$b"; done' % (' '.join(seeds), self.bins['c'], self.bins['bc'])
+        en = (self.entry_name + ' ') if self.entry_name else ''
+        script = ('for s in %s; do a=$(timeout 60 "%s" ' + en + '--seed $s 2>&1); ra=$?; b=$(timeout 60 "%s" ' + en + '--seed $s 2>&1); rb=$?; printf "%%s\\037%%s\\037%%s\\037%%s\\037%%s\\036" "$s" "$ra" "$a" "$rb" "$b"; done') % (' '.join(seeds), self.bins['c'], self.bins['bc'])
         rc, out, _, _ = run(['bash', '-c', script], timeout=60 * len(seeds) + 60)
         for rec in out.split('\x1e'):
             if not rec.strip(): continue
@@ -431,20 +513,25 @@ class Job:
         t0 = time.time()
         h = self.h; r = self.res
         try:
-            if h.route == 'B': self.build_B()
+            if self.shared is not None:
+                self.shared.ensure(); os.makedirs(self.work, exist_ok=True)
+                self.bins = self.shared.bins; self.red = self.shared.job.red; self.cfiles = [self.shared.gb]; self.entry = 'verif_main_' + self.entry_name
+                r['ir_lines'] = self.shared.job.res.get('ir_lines'); r['shared_build_s'] = self.shared.build_s
+            elif h.route == 'B': self.build_B()
             else: self.build_A()
+            cd = [] if self.shared is not None else self.cdefs()   # a shared goto binary already has its defines compiled in
             r['build_s'] = round(time.time() - t0, 2)
             wextra = None
             if h.witness_backends:
                 # optional split (H(witness_backends=[...])): reachability/satisfiability witnesses are decided in a separate cbmc run on the given
                 # back ends (model finding), the real assertions in the main sweep (proof); used where one back end cannot do both (non-linear arithmetic)
-                rc0, pout, _, _ = run(['cbmc'] + self.cfiles + ['--function', self.entry] + cbmc_base(h, variant=self.variant) + self.cdefs() + ['--show-properties'], timeout=300, cwd=self.work)
+                rc0, pout, _, _ = run(['cbmc'] + self.cfiles + ['--function', self.entry] + cbmc_base(h, variant=self.variant) + cd + ['--show-properties'], timeout=300, cwd=self.work)
                 plist = re.findall(r'^Property (\S+):\n[^\n]*\n  ([^\n]*)$', pout, re.M)
                 wids = [i for i, d in plist if d.startswith('WITNESS:')]; pids = [i for i, d in plist if not d.startswith('WITNESS:')]
                 if rc0 != 0 or not wids or not pids:
                     raise Inconclusive('could not list properties for the witness/proof split: ' + pout[-800:])
-                wextra = self.cdefs() + [x for i in wids for x in ('--property', i)]
-            win, allr = run_cbmc_sweep(h, self.cfiles, self.entry, self.work, extra=self.cdefs() + ([x for i in pids for x in ('--property', i)] if wextra else []), variant=self.variant)
+                wextra = cd + [x for i in wids for x in ('--property', i)]
+            win, allr = run_cbmc_sweep(h, self.cfiles, self.entry, self.work, extra=cd + ([x for i in pids for x in ('--property', i)] if wextra else []), variant=self.variant)
             if wextra and win['verdict'] is not None:
                 hw = H(h.name, h.src, h.entry); hw.__dict__.update(h.__dict__); hw.backends = list(h.witness_backends)
                 wwin, _ = run_cbmc_sweep(hw, self.cfiles, self.entry, self.work, extra=wextra, variant=self.variant)
@@ -482,7 +569,9 @@ class Job:
             r['discharged'] = len(real) - len(bad)
             r['assertions'] = sorted(set(p[1] for p in real))[:40]
             # native builds + translator differential
-            t1 = time.time(); self.build_native(); r['native_build_s'] = round(time.time() - t1, 2)
+            t1 = time.time()
+            if self.shared is None: self.build_native()
+            r['native_build_s'] = round(time.time() - t1, 2)
             t1 = time.time(); r['differential'] = self.differential(seed); r['differential_s'] = round(time.time() - t1, 2)
             if 'native_random_failures' in r:
                 bad = bad or [('native', r['native_random_failures'][0]['out'], 'FAILURE')]
@@ -508,21 +597,25 @@ class Job:
         tape = []
         if pid_prop:
             hh = H(h.name, h.src, h.entry); hh.__dict__.update(h.__dict__); hh.slice_formula = False; hh.backends = [r['backend'] if r['backend'] in ('default', 'cadical') else 'default']
-            extra = self.cdefs() + ['-D', 'VERIF_RECORD_TAPE', '-D', 'VERIF_TAPE_MAX=%d' % TAPE_MAX, '--trace', '--property', pid_prop]
-            win, _ = run_cbmc_sweep(hh, self.cfiles, self.entry, self.work, extra=extra, timeout=max(h.timeout, 600), variant=self.variant)
+            if self.shared is not None:
+                extra = ['--trace', '--property', pid_prop]; files = [self.shared.recording_binary()]
+            else:
+                extra = self.cdefs() + ['-D', 'VERIF_RECORD_TAPE', '-D', 'VERIF_TAPE_MAX=%d' % TAPE_MAX, '--trace', '--property', pid_prop]; files = self.cfiles
+            win, _ = run_cbmc_sweep(hh, files, self.entry, self.work, extra=extra, timeout=max(h.timeout, 600), variant=self.variant)
             if win['verdict'] != 'failed':
                 raise Inconclusive('could not regenerate counterexample trace for %s: %s' % (pid_prop, win['out'][-800:]))
             tape = tape_from_trace(win['out'])
         rdir = os.path.join(VERIF, 'replays', self.pid); os.makedirs(rdir, exist_ok=True)
         path = os.path.join(rdir, self.id + '.tape')
         meta = dict(property=self.pid, harness=h.name, variant=self.variant, failing=[b[1] for b in bad][:5])
+        if self.entry_name: meta['entry'] = self.entry_name
         if pid_prop is None:
             meta['seed'] = r['native_random_failures'][0]['seed']
         write_tape(path, tape, meta)
         if pid_prop is None:
             rc, out = 1, r['native_random_failures'][0]['out']
         else:
-            rc, out, _, _ = norm_trap(run([self.bins['bc'], path], timeout=120))
+            rc, out, _, _ = norm_trap(run([self.bins['bc']] + ([self.entry_name] if self.entry_name else []) + [path], timeout=120))
         r['replay'] = dict(path=path, rc=str(rc), out=out[-500:])
         if rc == 1 and 'ASSERT-FAIL' in out:
             r['status'] = 'violation'; r['failing'] = [b[1] for b in bad][:5]
@@ -569,6 +662,14 @@ def check_property(pid, tier, seed, only=None, keep=False):
     for h in mod.HARNESSES:
         if only and h.name not in only: continue
         if tier == 'quick' and h.tier == 'thorough': continue
+        if h.entries is not None:
+            es = h.tentries if (tier == 'thorough' and h.tentries is not None) else h.entries
+            if os.environ.get('VERIF_ENTRIES'):   # development aid: restrict to the named entries
+                es = [e for e in es if e[0] in os.environ['VERIF_ENTRIES'].split(',')]
+            sb = SharedBuild(pid, hdir, h, es, tier, root)
+            for name, _args in es:
+                jobs.append(Job(pid, hdir, h, {}, tier, root, shared=sb, entry_name=name))
+            continue
         vs = h.variants
         if tier == 'thorough' and h.tvariants is not None: vs = h.tvariants
         for v in vs:
@@ -650,11 +751,15 @@ def replay(pid, path):
     h = [x for x in mod.HARNESSES if x.name == meta['harness']][0]
     root = tempfile.mkdtemp(prefix='verif-replay-', dir=os.environ.get('VERIF_SCRATCH', '/var/tmp'))
     try:
-        j = Job(pid, hdir, h, meta['variant'], 'quick', root)
-        if h.route == 'B': j.build_B()
-        else: j.build_A()
-        j.build_native()
-        args = ['--seed', meta['seed']] if 'seed' in meta else [path]
+        if meta.get('entry'):
+            es = [e for e in (list(h.entries or []) + list(h.tentries or [])) if e[0] == meta['entry']][:1]
+            sb = SharedBuild(pid, hdir, h, es, 'quick', root); sb.ensure(); j = sb.job
+        else:
+            j = Job(pid, hdir, h, meta['variant'], 'quick', root)
+            if h.route == 'B': j.build_B()
+            else: j.build_A()
+            j.build_native()
+        args = ([meta['entry']] if meta.get('entry') else []) + (['--seed', meta['seed']] if 'seed' in meta else [path])
         rc, out, _, _ = norm_trap(run([j.bins['bc']] + args, timeout=120))
         print(out)
         if rc == 1:
